@@ -1144,7 +1144,7 @@ def evaluate__xml_to_json(self: XPathFunction, context: ta.ContextType = None) \
                 continue
 
             if child.tag == NULL_TAG:
-                check_attributes()
+                check_attributes('key')
                 if child.text is not None:
                     msg = 'a null element cannot have a text value'
                     raise self.error('FOJS0006', msg)
@@ -1171,7 +1171,7 @@ def evaluate__xml_to_json(self: XPathFunction, context: ta.ContextType = None) \
                     if math.isnan(number) or math.isinf(number):
                         msg = f'invalid number value {value!r}'
                         raise self.error('FOJS0006', msg)
-                    chunks.append(str(number).rstrip('0').rstrip('.'))
+                    chunks.append(self.string_value(number))
 
             elif child.tag == STRING_TAG:
                 check_attributes('key', 'escaped-key', 'escaped')
@@ -1180,12 +1180,13 @@ def evaluate__xml_to_json(self: XPathFunction, context: ta.ContextType = None) \
                     raise self.error('FOJS0006', msg)
 
                 value = ''.join(etree_iter_strings(child))
-                check_escapes(value)
 
                 escaped = child.get('escaped', '0').strip()
                 if escaped not in BOOLEAN_VALUES:
                     msg = f"{child} has an invalid value for 'escaped' attribute"
                     raise self.error('FOJS0006', msg)
+                elif escaped in ('true', '1'):
+                    check_escapes(value)  # a backslash is an ordinary character otherwise
 
                 value = escape_json_string(value, escaped in ('true', '1'))
                 chunks.append(f'"{value}"')
